@@ -13,6 +13,10 @@
      python/tskit/trees.py  Tree.first/last/next/prev/clear/seek_index/seek/copy (l. 696-866)
      python/_tskitmodule.c  Tree_next/Tree_prev (`err == 1`), Tree_copy (TSK_NO_INIT copy)
 
+   The model follows /repo HEAD including the repairs eee123e (F4: NaN-proof guards of
+   tsk_tree_seek / Tree.seek), 9583b70 (F14: tsk_tree_clear resets the site list) and fcbdf2e
+   (F15: tsk_tree_clear removes the descendants' tracked counts from internal samples).
+
    Abstraction: of the quintuply linked tree only the [parent] array, the [edge] array,
    [num_edges], the tracked-sample counts and the site-list pointer are kept (children
    order, sample counts, roots and sample lists are property C01's business).  Genome
@@ -255,8 +259,24 @@ Definition insert_edge (m : counts_mode) (t : tree) (p c e : Z) : res tree :=
   do edg <- set (t_edge t) c e;
   Ok (mkTree (t_index t) (t_left t) (t_right t) (t_pos t) par edg (t_num_edges t + 1) tr (t_sites t)).
 
-(* tsk_tree_clear, trees.c l. 6612-6679.  self->sites / sites_length are NOT reset;
-   num_tracked_samples is zeroed only for non-sample nodes j < num_nodes. *)
+(* tsk_tree_clear.  self->sites / sites_length are reset (fix 9583b70).  Tracked counts:
+   first (fix fcbdf2e, only when num_edges > 0) every SAMPLE node u keeps only its own
+   tracked status  num_tracked[u] - sum over its children v of num_tracked[v]  (two passes,
+   the old values are read); then num_tracked_samples is zeroed for the non-sample nodes
+   j < num_nodes.  The children of u are the nodes whose parent is u (their order does not
+   matter for the sum). *)
+Definition children_sum (parent tracked : list Z) (u : Z) : Z :=
+  fold_right (fun pv acc => if fst pv =? u then snd pv + acc else acc) 0 (combine parent tracked).
+
+Fixpoint own_tracked (parent tracked_all : list Z) (u : Z) (tr flags : list Z) : list Z :=
+  match tr, flags with
+  | x :: tr', fl :: flags' =>
+      (if Z.odd fl then x - children_sum parent tracked_all u else x)
+      :: own_tracked parent tracked_all (u + 1) tr' flags'
+  | tr, [] => tr
+  | [], _ => []
+  end.
+
 Definition clear_tracked (ts : tseq) (tr : list Z) : list Z :=
   let fix go (tr flags : list Z) : list Z :=
     match tr, flags with
@@ -268,8 +288,14 @@ Definition clear_tracked (ts : tseq) (tr : list Z) : list Z :=
 Definition tree_clear (m : counts_mode) (ts : tseq) (t : tree) : tree :=
   mkTree (-1) 0 0 (pos_set_null (t_pos t))
          (map (fun _ => TSK_NULL) (t_parent t)) (map (fun _ => TSK_NULL) (t_edge t)) 0
-         (match m with core => t_tracked t | full => clear_tracked ts (t_tracked t) end)
-         (t_sites t).
+         (match m with
+          | core => t_tracked t
+          | full => clear_tracked ts
+                      (if 0 <? t_num_edges t
+                       then own_tracked (t_parent t) (t_tracked t) 0 (t_tracked t) (ts_flags ts)
+                       else t_tracked t)
+          end)
+         [].
 
 (* tsk_tree_init + tsk_tree_set_tracked_samples: a new Tree *)
 Definition tree_init (ts : tseq) : tree :=
@@ -404,7 +430,8 @@ Definition tree_seek_linear (fuel : nat) (m : counts_mode) (ts : tseq) (t : tree
 
 (* tsk_tree_seek, trees.c l. 6591-6610; [Err] = a library error code, tree untouched *)
 Definition tree_seek (fuel : nat) (m : counts_mode) (ts : tseq) (t : tree) (x : coord) : res tree :=
-  if x_lt_z x 0 || x_ge_z x (ts_L ts) then Err TSK_ERR_SEEK_OUT_OF_BOUNDS else
+  (* if (!(x >= 0 && x < L))   -- false for NaN too (fix eee123e) *)
+  if negb (x_ge_z x 0 && x_lt_z x (ts_L ts)) then Err TSK_ERR_SEEK_OUT_OF_BOUNDS else
   if t_index t =? -1 then tree_seek_from_null m ts t x else tree_seek_linear fuel m ts t x.
 
 (* tsk_tree_seek_index, trees.c l. 6535-6549 *)
@@ -454,8 +481,8 @@ Definition py_step_fuel (fuel : nat) (m : counts_mode) (ts : tseq) (st : tree * 
   | OpPrev => do '(t, r) <- tree_prev m ts cur; Ok ((t, other), if r =? 1 then 1 else 0)
   | OpClear => Ok ((tree_clear m ts cur, other), RET_NONE)
   | OpSeek x =>
-      (* Tree.seek: if position < 0 or position >= sequence_length: raise ValueError *)
-      if x_lt_z x 0 || x_ge_z x (ts_L ts) then Ok (st, RAISE_VALUE_ERROR)
+      (* Tree.seek: if not (0 <= position < sequence_length): raise ValueError *)
+      if negb (x_ge_z x 0 && x_lt_z x (ts_L ts)) then Ok (st, RAISE_VALUE_ERROR)
       else lib_call cur other (tree_seek fuel m ts cur x) RET_NONE
   | OpSeekIndex i =>
       (* Tree.seek_index: negative indexes wrap once, then IndexError *)
@@ -582,6 +609,11 @@ Definition edge_at_node (ts : tseq) (x : Z) (c : Z) : Z :=
 (* arrays of N + 1 entries (the virtual root has no parent) *)
 Definition parent_at (ts : tseq) (x : Z) : list Z := map (parent_at_node ts x) (zseq (ts_N ts + 1)).
 Definition edges_at (ts : tseq) (x : Z) : list Z := map (edge_at_node ts x) (zseq (ts_N ts + 1)).
+(* the site list of tree k (tree_sites[k]); empty for the null tree and when there are no sites *)
+Definition sites_at (ts : tseq) (k : Z) : list Z :=
+  if k =? -1 then [] else
+  if 0 <? ts_nsites ts then match get (ts_tree_sites ts) k with Ok s => s | _ => [] end else [].
+
 (* number of edge rows (ids) covering x *)
 Definition covb (ts : tseq) (x : Z) (e : Z) : bool :=
   match get (ts_edges ts) e with Ok ed => covers ed x | _ => false end.
